@@ -213,7 +213,7 @@ def get_crystal_structure(cell, conv_numbers, write_symmetry=False):
     lines = "3 1 1\n"
     # Cartesian components of the lattice vectors
     for lattvec in lattice:
-        lines += ("%12.8f" * 3 + "\n") % tuple(lattvec)
+        lines += (" %12.8f" * 3 + "\n") % tuple(lattvec)
 
     # Symmetry operators
     if write_symmetry:
